@@ -22,6 +22,7 @@ import (
 	"sync/atomic"
 
 	"google.golang.org/grpc/grpclog"
+	"google.golang.org/grpc/internal/verifhook"
 )
 
 var logger = grpclog.Component("grpcsync")
@@ -76,10 +77,12 @@ func (rc *RefCounted[T]) TryIncrement() bool {
 	// decrement could drop the count to zero between the read and the increment
 	// operation, which would otherwise inadvertently resurrect a closed resource.
 	for {
+		verifhook.At("refc.load", rc)
 		count := rc.refCount.Load()
 		if count <= 0 {
 			return false // Already dead or dying
 		}
+		verifhook.At("refc.cas", rc)
 		if rc.refCount.CompareAndSwap(count, count+1) {
 			return true
 		}
